@@ -33,7 +33,12 @@ fn atom_text(a: u8) -> &'static str
 		7 => "goto B;",
 		8 => "if c == 0 goto A;",
 		9 => "if c == 0 goto B;",
-		_ => "loop;",
+		10 => "loop;",
+		// two more variables, for the slices that need them (not enumerated)
+		11 => "var z: i32 = 3;",
+		12 => "var w: i32 = 4;",
+		13 => "acc = z;",
+		_ => "acc = w;",
 	}
 }
 
@@ -95,7 +100,11 @@ fn to_models(forest: &[B], next_id: &mut usize) -> (Vec<V>, Vec<L>)
 					7 => (V::Goto(1, id, false), L::Goto(1, id)),
 					8 => (V::Goto(0, id, true), L::Goto(0, id)),
 					9 => (V::Goto(1, id, true), L::Goto(1, id)),
-					_ => (V::Loop(id), L::Other),
+					10 => (V::Loop(id), L::Other),
+					11 => (V::Decl(2, id), L::Other),
+					12 => (V::Decl(3, id), L::Other),
+					13 => (V::Use(2, id), L::Other),
+					_ => (V::Use(3, id), L::Other),
 				};
 				vs.push(v);
 				ls.push(l);
@@ -168,6 +177,14 @@ pub fn drive(d: &mut Driver)
 	let jobs: Vec<Value> = (0..16).map(|k| json!({"overlap": k})).collect();
 	d.bound("seven-statement slice", json!("all arrangements of {goto A | if c goto A, goto B | if c goto B, var x, var y, A:, B:, use of x | use of y} in one block"));
 	d.phase("two gotos, two labels, two declarations, one use: all arrangements", jobs);
+	// slice of larger sizes: two or three gotos to one label from different scopes. A goto site is a
+	// (conditional) goto at the top level or inside one or two nested blocks behind up to two local
+	// declarations; up to two declarations stand before the first site and between the sites; after
+	// the label each variable of the top level is used in turn.
+	let nsites = site_forests().len();
+	d.bound("gotos to one label from different scopes", json!({"sites": "2 or 3", "site": "goto A | if c goto A, at depth 0, 1 or 2, behind 0-2 local declarations (z, w)", "declarations before and between the sites": "0-2 in total (x, y)", "after the label": "a use of x, of y, or of a local of a closed block", "bodies": nsites}));
+	let jobs: Vec<Value> = (0..nsites).step_by(400).map(|lo| json!({"sites": true, "lo": lo, "hi": (lo + 400).min(nsites)})).collect();
+	d.phase("gotos to one label from different scopes", jobs);
 	d.assume("model: engine/src/model/vars.rs — lexical scoping, the documented prune rule of docs/features.md, and an independent path analysis on the syntactic control-flow graph used one-directionally (accepted implies sound)");
 	d.assume("a variable name with a duplicate declaration is judged for E422 only; which declaration later uses bind to is not documented");
 }
@@ -251,8 +268,134 @@ fn use_forms(w: &mut WorkerCtx)
 	}
 }
 
+/// The bodies of the slice "gotos to one label from different scopes".
+pub fn site_forests() -> Vec<Vec<B>>
+{
+	// a site: (depth 0..=2, locals 0..=2, conditional)
+	let mut sites: Vec<(usize, usize, bool)> = Vec::new();
+	for conditional in [false, true]
+	{
+		sites.push((0, 0, conditional));
+		for depth in 1..=2
+		{
+			for locals in 0..=2
+			{
+				sites.push((depth, locals, conditional));
+			}
+		}
+	}
+	let site_forest = |(depth, locals, conditional): (usize, usize, bool)| -> B {
+		let goto = B::Atom(if conditional { 8 } else { 6 });
+		if depth == 0
+		{
+			return goto;
+		}
+		let mut inner: Vec<B> = Vec::new();
+		if locals >= 1
+		{
+			inner.push(B::Atom(11));
+		}
+		if locals >= 2
+		{
+			inner.push(B::Atom(12));
+		}
+		inner.push(goto);
+		let mut b = B::Block(inner);
+		for _ in 1..depth
+		{
+			b = B::Block(vec![b]);
+		}
+		b
+	};
+	// where the top-level declarations x and y stand: gap index per declaration (gap g = in front of site g)
+	let mut out = Vec::new();
+	for nsites in 2..=3usize
+	{
+		let mut choice = vec![0usize; nsites];
+		loop
+		{
+			// placements of up to two declarations (x then y) into the gaps 0..nsites (gap nsites = between the last site and the label)
+			let mut placements: Vec<Vec<usize>> = vec![vec![]];
+			for gx in 0..=nsites
+			{
+				placements.push(vec![gx]);
+				for gy in gx..=nsites
+				{
+					placements.push(vec![gx, gy]);
+				}
+			}
+			for placement in &placements
+			{
+				let mut uses: Vec<u8> = vec![];
+				if !placement.is_empty()
+				{
+					uses.push(2);
+				}
+				if placement.len() == 2
+				{
+					uses.push(3);
+				}
+				// a local of a block that has ended is out of scope anyway (E402): one representative
+				uses.push(13);
+				for used in uses
+				{
+					let mut forest: Vec<B> = Vec::new();
+					for g in 0..=nsites
+					{
+						for (k, gap) in placement.iter().enumerate()
+						{
+							if *gap == g
+							{
+								forest.push(B::Atom(k as u8));
+							}
+						}
+						if g < nsites
+						{
+							forest.push(site_forest(sites[choice[g]]));
+						}
+					}
+					forest.push(B::Atom(4));
+					forest.push(B::Atom(used));
+					out.push(forest);
+				}
+			}
+			// next combination of sites
+			let mut k = 0;
+			loop
+			{
+				if k == nsites
+				{
+					break;
+				}
+				choice[k] += 1;
+				if choice[k] < sites.len()
+				{
+					break;
+				}
+				choice[k] = 0;
+				k += 1;
+			}
+			if k == nsites
+			{
+				break;
+			}
+		}
+	}
+	out
+}
+
 pub fn work(spec: &Value, w: &mut WorkerCtx)
 {
+	if spec.get("sites").is_some()
+	{
+		let all = site_forests();
+		for forest in &all[spec["lo"].as_u64().unwrap() as usize..spec["hi"].as_u64().unwrap() as usize]
+		{
+			w.result.transitions += 1;
+			judge(0, forest, w);
+		}
+		return;
+	}
 	if let Some(k) = spec.get("overlap").and_then(|k| k.as_u64())
 	{
 		// k selects plain / conditional gotos and the used variable and one of two halves
